@@ -33,7 +33,7 @@ def run(ctx):
     u = ctx.extract(U)
     ra = ctx.rule('R11.a', 'monitor fields under rw_lock; delayed-message lock released only by its holder', floor=40)
     rb = ctx.rule('R11.b', 'message and wave counting', floor=6)
-    rc = ctx.rule('R11.c', 'root decision: two identical waves and sent == received', floor=3)
+    rc = ctx.rule('R11.c', 'root decision: two identical waves and sent == received; accumulators reset after every inconclusive wave', floor=4)
     rd = ctx.rule('R11.d', 'binary-heap topology', floor=4)
     re_ = ctx.rule('R11.e', 'callback only after TERMINATED', floor=2)
     funcs = {n: f for n, f in u.funcs().items() if f.file.endswith('termdet_fourcounter_module.c')}
@@ -141,6 +141,22 @@ def run(ctx):
     zero = [s_ for s_ in f.stores() if s_.lhs.k == 'mem' and s_.lhs.n in ('acc_sent', 'acc_received') and s_.rhs is not None and s_.rhs.cv == 0]
     okz = len(zero) == 2 and all(f.guarded_by(s_.point, lambda a, t: (not t) and a.s.endswith('.result')) for s_ in zero) and all(f.precedes(x, s_) for x in last for s_ in zero)
     rc.expect(okz, 'root:reset', zero[0].loc if zero else f.where(), 'when the wave is inconclusive the accumulators must be reset (after the wave was remembered)', note='inconclusive wave: acc_* = 0')
+
+    # a process below the root: the contribution it sent up is forgotten when the verdict of that wave arrives,
+    # whatever its own state is then - otherwise it is counted again in the next wave
+    fd = u.func(PFX + 'msg_down')
+    zero = [s_ for s_ in fd.stores() if s_.lhs.k == 'mem' and s_.lhs.n in ('acc_sent', 'acc_received') and s_.rhs is not None and s_.rhs.cv == 0]
+    def only_verdict(s_):
+        for a, t, b in fd.guards(s_.point):
+            if fd.term_kind(b) in ('for', 'while', 'do'):
+                continue
+            if not (a.s.endswith('->result') and t is False):
+                return False
+        return fd.guarded_by(s_.point, lambda a, t: (not t) and a.s.endswith('->result'))
+    okz = sorted(s_.lhs.n for s_ in zero) == ['acc_received', 'acc_sent'] and all(only_verdict(s_) for s_ in zero)
+    rc.expect(okz, 'down:reset', zero[0].loc if zero else fd.where(),
+              'on a negative verdict the accumulators of the finished wave must be reset on every path (idle or busy): a busy process would count its last contribution twice in the next wave',
+              note='negative verdict: acc_* = 0 whatever the local state')
 
     # ---- (d)
     f = u.func(PFX + 'topology_nb_children')
